@@ -1,9 +1,11 @@
 CHECK = {
     "suites": [suite("tracker", "c06", 20000, 250000, stdin=True, args=["-mode", "t"]),
-               suite("global", "c06", 5000, 50000, stdin=True, args=["-mode", "g"])],
+               suite("global", "c06", 5000, 50000, stdin=True, args=["-mode", "g"]),
+               suite("faults", "c06", 6000, 80000, stdin=True, args=["-mode", "tf"]),
+               suite("recover", "c06", 2500, 30000, stdin=True, args=["-mode", "tr"])],
     "gen": [{"pkg": "extract_c06", "out": "lean/ClusterVerif/Gen/C06.lean"}],
     "lean_sources": ["ClusterVerif/Model/C06.lean", "ClusterVerif/Spec/C06.lean", "ClusterVerif/Lemmas/C06.lean",
-                     "ClusterVerif/Gen/C06.lean"],
+                     "ClusterVerif/Lemmas/C06F.lean", "ClusterVerif/Gen/C06.lean"],
     "rule": "tracker cases = (this peer, 0-9 CIDs each with a pinset entry (absent/meta/allocated elsewhere/here/everywhere, recursive or direct), "
             "what the daemon holds (unpinned/direct/recursive/indirect), the last operation and its phase; filter 0, the 12 single statuses, bit 0, the "
             "composites and random unions incl. bits above 2^13); global cases = member list (reachable/unreachable/refusing peers), pinset entry, "
